@@ -3,7 +3,7 @@
    `g_live` is the table as a list (id, connection) in storage order.  The history part of the property is the
    finite-map refinement: connect / disconnect / block change exactly the entry they name (C01_connect_adds etc.),
    moves do not touch the table, and every reachable world satisfies the invariant the theorems assume (winv). *)
-From KDB Require Import Util GenIdx GenIdxProofs SigDefs SigInv SigTheorems SigEmit.
+From KDB Require Import Util GenIdx GenIdxProofs SigDefs SigInv SigTheorems SigEmit SigDisc.
 
 Theorem C01_emit_exact :
   forall tbl pass_fuel fuel w s args i m,
@@ -52,6 +52,33 @@ Theorem C01_block_sets :
 Proof. exact block_effect. Qed.
 Print Assumptions C01_block_sets.
 
+(* single-shot: "reached by exactly one emission in its life". For ARBITRARY slot bodies (any script table, any nesting): the
+   emission whose trace contains the direct invocation of a single-shot connection k leaves the id k stale when it returns -
+   normally or by an exception ... *)
+Theorem C01_single_shot_stale_after_its_emission :
+  forall tbl pass_fuel fuel w s args i k m c l,
+    winv w -> lookup (w_sigs w) s = Some (Some i) -> get_impl w i = Some m -> i_emitting m = false ->
+    g_get (i_conns m) k = Some c -> c_kind c = KSingle ->
+    w_trace (fst (sig_emit (script tbl pass_fuel fuel) w s args)) = l ++ w_trace w -> In k (dkeys i l) ->
+    stale_in (fst (sig_emit (script tbl pass_fuel fuel) w s args)) i k.
+Proof. intros tbl pf fuel w s args i k m c l. exact (single_shot_stale_after _ w s args i k m c l (script_good tbl pf fuel)). Qed.
+Print Assumptions C01_single_shot_stale_after_its_emission.
+
+(* ... and a stale id stays stale through every later history: it is in no table (so no emission can invoke it, C01_emit_exact /
+   C01_at_most_once speak about table entries only) and every handle carrying it is inactive *)
+Theorem C01_single_shot_never_again :
+  forall tbl pass_fuel fuel ops w i k,
+    winv w -> stale_in w i k ->
+    stale_in (fold_left (step tbl pass_fuel fuel) ops w) i k /\
+    checked_lock (fold_left (step tbl pass_fuel fuel) ops w) {| h_impl := Some i; h_id := Some k |} = None /\
+    (forall m, get_impl (fold_left (step tbl pass_fuel fuel) ops w) i = Some m -> g_get (i_conns m) k = None).
+Proof.
+  intros tbl pf fuel ops w i k Hw Hs. destruct (stale_final tbl pf fuel ops w i k Hw Hs) as [H1 H2]. split; [exact H1|]. split; [exact H2|].
+  intros m Hm. destruct H1 as (m1 & Hm1 & Hst). assert (m1 = m) by congruence. subst m1.
+  exact (stale_not_in_table _ i k m (fold_winv tbl pf fuel ops w Hw) Hm Hst).
+Qed.
+Print Assumptions C01_single_shot_never_again.
+
 (* the hypotheses of the theorems above hold in every reachable world *)
 Theorem C01_invariant_reachable : forall tbl pass_fuel fuel ops, winv (run tbl pass_fuel fuel ops).
 Proof. exact run_winv. Qed.
@@ -64,3 +91,13 @@ Example C01_example :
   firstn 4 (w_trace (run (fun _ => []) 8 4 ops)) =
     [EvDone None; EvAdded 0; EvSlot (Some (0, {| gi_index := 0; gi_gen := 1 |})) true 103 [1%Z; 2%Z; 3%Z]; EvDone None].
 Proof. vm_compute. reflexivity. Qed.
+
+(* non-vacuity: a single-shot connection and a plain one, two emissions: 103 runs in the first only; its body (script 1) even
+   re-connects nothing and disconnects the other connection - the single-shot is still gone afterwards *)
+Example C01_single_shot_example :
+  let tbl := fun sid => match sid with 1 => [ODiscH 0] | _ => [] end in
+  let ops := [OSigNew 0 1; OConnect 0 0 100 1 [] 0; OConnect1 0 1 103 1; OEmit 0 [5%Z]; OEmit 0 [6%Z]; OActive 1] in
+  filter (fun e => match e with EvSlot _ _ _ _ => true | _ => false end) (w_trace (run tbl 8 4 ops)) =
+    [EvSlot (Some (0, {| gi_index := 1; gi_gen := 0 |})) true 103 [5%Z]; EvSlot (Some (0, {| gi_index := 0; gi_gen := 0 |})) true 100 [5%Z]]
+  /\ nth_error (w_trace (run tbl 8 4 ops)) 1 = Some (EvBool false).
+Proof. vm_compute. split; reflexivity. Qed.
